@@ -73,6 +73,8 @@ def run(ctx):
         fw = forwarders(roles, truthy)
         ok_keys = {truthy.key} | fw
         ctx.count("truthiness function / forwarders (%s)" % cfg, [truthy.key.split("::", 1)[1]] + sorted(k.split("::", 1)[1] for k in fw))
+        from . import prov as P
+        pv = P.Prov(roles).run()
         # ---------------- K1
         npos = 0
         for op in POSITIONS:
@@ -93,6 +95,13 @@ def run(ctx):
                     ctx.fail("K1.second-notion", "%s|%s" % (op, c["path"]), "the operator %r decides with %s, a different value→bool function than the shared truthiness table" % (op, c["path"]), where=s.where(), fn=s.body.key)
             for s in u.calls(lambda c: re.match(r"^serde_json::Value::(as_bool|is_boolean|is_null|is_number|is_string|is_array|is_object|as_f64|as_i64|as_u64)$", c["path"]) is not None):
                 ctx.fail("K1.second-notion", "%s|%s" % (op, callee_path(s.term)), "the operator %r inspects a value with %s instead of the shared truthiness table" % (op, callee_path(s.term)), where=s.where(), fn=s.body.key)
+            # what is tested is an evaluated value (an operand or an evaluation result), not something
+            # looked up in the data or taken from the rule text by other means
+            for s in sites:
+                tg = pv.op_tags(s.body, s.term["args"][0])
+                ctx.check(tg <= {"EVAL"} and tg, "K1.tests-evaluated-value", "%s: truthiness of an evaluated value (%s, %s)" % (op, s.where(), cfg),
+                          "the operator %r takes the truthiness of a value with provenance %s — not of the value the interpreter computes for that operand, so positions can disagree on the same expression" % (op, sorted(tg)),
+                          where=s.where(), fn=s.body.key, nontrivial=True)
             # result used
             for s in sites:
                 dest = s.term["dest"]["local"]
@@ -114,6 +123,13 @@ def run(ctx):
                     used = True
                 ctx.check(used, "K1.used", "%s: truthiness result used (%s, %s)" % (op, s.where(), cfg), "the truthiness of the value is computed and discarded", where=s.where(), fn=s.body.key)
         ctx.floor("deciding positions (%s)" % cfg, npos, 8)
+        # the same, over every way the shared function is reached (also as a callable handed to an adaptor)
+        for k in sorted(ok_keys):
+            tg = set(pv.tags.get((k, 1), set()))
+            fb = facts.body(k)
+            ctx.check(tg <= {"EVAL"}, "K1.tests-evaluated-value", "everything reaching %s is an evaluated value (%s)" % (k.split("::", 1)[1], cfg),
+                      "the truthiness function is applied to values with provenance %s: somewhere a decision is taken on something other than the value the interpreter computes (e.g. a private look-up in the data)" % sorted(tg),
+                      where=fb.where(), fn=k, nontrivial=True, sample={"function": k, "argument_tags": sorted(tg)})
         # none through some
         nb, ne = roles.fn_of("none")
         sb, se = roles.fn_of("some")
